@@ -130,3 +130,18 @@ def functions_for_tier(tier):
     for q in (THOROUGH_CLASSES if tier == 'thorough' else QUICK_CLASSES):
         out.append(class_contract(front.cls_obj(q)).qual)
     return out
+
+
+# ---- what "conforms" MEANS for the integer kinds (definitions, so that the validators themselves are verified against the
+#      meaning the property speaks about: a non-conforming value is rejected, a conforming one accepted)
+ghost('int_ok', ['Val'], 'Bool')        # int(text) parses (A-STR)
+ghost('int_val', ['Val'], 'Int')        # ... and its value
+from pyvc.state import axiom
+_NUM = '(is_str(v) and int_ok(v))'
+_IV = 'ite(is_str(v), int_val(v), ite(is_int(v), int_of(v), ite(v is True, 1, 0)))'
+_PARSES = '((is_str(v) and int_ok(v)) or is_int(v) or is_bool(v))'
+for _name, _cond in [('valid_integer', 'True'), ('valid_non_negative_integer', '%s >= 0' % _IV), ('valid_positive_integer', '%s > 0' % _IV),
+                     ('valid_unsigned_byte', '0 <= %s and %s <= 255' % (_IV, _IV))]:
+    axiom('conforms', 'DEF-conforms[%s]' % _name,
+          "forall(lambda v: conforms(%r, v) == (%s and (%s)), 'Val')" % (_name, _PARSES, _cond), modname='saml2_tophat.validate')
+INTEGER_VALIDATORS = [V + n for n in ('valid_integer', 'valid_non_negative_integer', 'valid_positive_integer', 'valid_unsigned_byte')]
